@@ -482,6 +482,37 @@ static inline void cm(W& w, int prior, const size_t slen[4], size_t vlen)
     w.outcome(mc::mix(mc::fnv_s(k), mc::mix(raw.size(), prior0)));
 }
 
+// Capture-module strings whose CONTENT could be mistaken for padding or formatting: blanks at the end, at the start, only blanks, tabs,
+// a trailing dot / zero digit, high-bit bytes - a string is returned exactly as it was supplied
+static const char* kSpecialStrings[] = {" ", "x ", " x", "CM-100  ", "v1 ", "\t", "a\t", "1.0", "1.", "0", "00", "\xFF", "\xC3\xA4 ", "  ", "a b", "\r\n", "x\n"};
+static inline void cmSpecial(W& w, int sec, int k, int prior)
+{
+    using T = A::CaptureModulePayload;
+    std::string s[4] = {"dev", "sn", "hw", "sw"};
+    s[sec] = kSpecialStrings[k];
+    T p;
+    p.setUptime(7);
+    if (prior)
+        p.setData("previous-description", "previous-serial", "previous-hw", "previous-sw", {1, 2, 3, 4});
+    Bytes v = {9, 8, 7};
+    p.setData(s[0], s[1], s[2], s[3], v);
+    w.add(mc::C_TRANS, 1);
+    std::string_view got[4] = {p.getDeviceDescription(), p.getSerialNumber(), p.getHardwareVersion(), p.getSoftwareVersion()};
+    const char* names[4] = {"device-description", "serial-number", "hardware-version", "software-version"};
+    for (int i = 0; i < 4; ++i)
+        if (std::string(got[i]) != s[i])
+            w.fail(std::string("builder:string:CaptureModulePayload:") + names[i], ofmt("the %zu-character string %s was set, the getter returns %zu characters", s[i].size(), mc::hex((const uint8_t*) s[i].data(), s[i].size()).c_str(), got[i].size()));
+    // the same through the raw bytes (a payload rebuilt from them) and through the decoder
+    Bytes raw(p.getRawPayload(), p.getRawPayload() + p.getLength());
+    T q(raw.data(), raw.size());
+    std::string_view got2[4] = {q.getDeviceDescription(), q.getSerialNumber(), q.getHardwareVersion(), q.getSoftwareVersion()};
+    for (int i = 0; i < 4; ++i)
+        if (std::string(got2[i]) != s[i])
+            w.fail(std::string("builder:string:CaptureModulePayload:") + names[i], "a payload rebuilt from the raw bytes returns another string than the one supplied");
+    decodeCheck(w, "CaptureModulePayload", ref::MT_STATUS, ref::PT_CM, raw, A::PayloadType::cmStatMsg);
+    w.outcome(mc::mix(mc::fnv_s("cmq"), mc::mix(sec * 64 + k, prior)));
+}
+
 static inline void iface(W& w, int prior, size_t sc, size_t vlen)
 {
     using T = A::InterfacePayload;
@@ -616,6 +647,11 @@ static inline void runCase(W& w, const std::string& cs)
     int prior = atoi(kv["prior"].c_str());
     size_t len = strtoull(kv["len"].c_str(), nullptr, 10);
     int hv = atoi(kv["hv"].c_str());
+    if (cls == "cmq")
+    {
+        cmSpecial(w, atoi(kv["sec"].c_str()), atoi(kv["k"].c_str()), prior);
+        return;
+    }
     if (kv.count("moved"))
     {
         auto setB = [](auto& p, const Bytes& d) { p.setData(d.data(), (uint8_t) d.size()); };
@@ -758,6 +794,11 @@ static int runC13(mc::Run& run, const mc::Options& opt)
             for (size_t len : {(size_t) 124, (size_t) 125, (size_t) 126, (size_t) 127, (size_t) 128, (size_t) 200, (size_t) 252, (size_t) 253, (size_t) 254, (size_t) 255, (size_t) 256,
                                (size_t) 382, (size_t) 383, (size_t) 384, (size_t) 32766, (size_t) 32767, (size_t) 32768})
                 cases.push_back(ofmt("cls=cmx;prior=%d;sec=%d;len=%zu", prior, sec, len));
+    // strings whose content looks like padding or formatting, in every section
+    for (int sec = 0; sec < 4; ++sec)
+        for (size_t k = 0; k < sizeof(c13::kSpecialStrings) / sizeof(c13::kSpecialStrings[0]); ++k)
+            for (int prior = 0; prior < 2; ++prior)
+                cases.push_back(ofmt("cls=cmq;sec=%d;k=%zu;prior=%d;len=0", sec, k, prior));
     // builder objects that were moved from and are used again
     for (const char* c : {"can", "canfd", "lin", "eth", "analog", "cm", "if"})
         for (size_t len : {(size_t) 0, (size_t) 1, (size_t) 8, (size_t) 64, (size_t) 200})
